@@ -9,3 +9,19 @@ pub fn t_next_version() {
     if !ch.resolve_conflict && ch.version == -1 { vsym::check("auto", nv == old.version + 1); }
     vsym::cover("rc", ch.resolve_conflict);
 }
+pub fn t_metrics() {
+    use crate::harness::common::*;
+    let n = mk_primary();
+    let (mut c, mut rx) = admin_client(&n.dbs);
+    let r = crate::process_request::process_request("metrics-state", &n.dbs, &mut c);
+    vsym::check("metrics.ok", match r { Response::Value { .. } => true, _ => false });
+}
+pub fn t_parse_word() {
+    let words = Request::command_list();
+    let mut w2 = words.clone(); w2.sort();
+    let w = vsym::param("word", 28);
+    vsym::tag(&w2[w]);
+    let s = vsym::any_str("rest", vsym::param("len", 12));
+    let line = [&w2[w], " ", &s].concat();
+    let _ = Request::parse(&line);
+}
